@@ -495,6 +495,22 @@ def binop(I, st, op, a, b, node=None):
             return prim_truediv(I, st, a2, b2)
         if isinstance(op, ast.Mod):
             return prim_mod(I, st, a2, b2)
+        if isinstance(op, ast.BitOr):
+            # int | bool on operands that are 0 / 1 (flags): bitwise or == logical or
+            def bit(t):
+                return z3.If(smt.kd(t, K_BOOL), z3.If(bval(t), 1, 0), ival(t))
+            small = z3.And(smt.is_kind(a2.t, K_INT, K_BOOL), smt.is_kind(b2.t, K_INT, K_BOOL),
+                           bit(a2.t) >= 0, bit(a2.t) <= 1, bit(b2.t) >= 0, bit(b2.t) <= 1)
+            bothbool = z3.And(smt.kd(a2.t, K_BOOL), smt.kd(b2.t, K_BOOL))
+            r = z3.If(z3.Or(bit(a2.t) == 1, bit(b2.t) == 1), 1, 0)
+            out = []
+            for s, p in branch(ctx, st, [(z3.And(small, bothbool), SV(smt.mk_bool(r == 1))), (z3.And(small, z3.Not(bothbool)), SV(smt.mk_int(r))),
+                                         (z3.Not(small), "other")]):
+                if p == "other":
+                    ctx.refute_or_oos(s, "bit-or on values other than 0/1 flags")
+                    continue
+                out.append((s, p))
+            return out
         if isinstance(op, (ast.Add, ast.Sub)):
             bothint = z3.And(smt.is_kind(a2.t, K_INT, K_BOOL), smt.is_kind(b2.t, K_INT, K_BOOL))
             ia = z3.If(smt.kd(a2.t, K_BOOL), z3.If(bval(a2.t), 1, 0), ival(a2.t))
